@@ -358,3 +358,16 @@ def index_helper_postcondition(prog, rep):
             k += 1
             want_relations(rep, rule, "get_index_opt | every other value is range-checked", holds_at(oir, bi), [("index", "Ne", -1)], o.loc(t.get("ln")), "present index")
     rep.floor(rule, k, 2, "branches of get_index_opt")
+    # Reader::item_type_indices returns the range of the type whose id EQUALS the requested one
+    it = prog.one(R + "item_type_indices")
+    iir = IR(it)
+    hits = 0
+    for bi in sorted(it.live):
+        for si, st in enumerate(it.blocks[bi]["st"]):
+            if st["k"] == "assign" and st["r"]["k"] == "agg" and (st["r"].get("adt") or "").endswith("ops::Range"):
+                e = iir.rvalue(st["r"], (bi, si))
+                if ".start" in show(strip_sites(e)):
+                    hits += 1
+                    want_relations(rep, rule, "item_type_indices | range of the type with the requested id", holds_at(iir, bi),
+                                   [(".type_id", "Eq", "type_id")], it.loc(st.get("ln")), "t.start..t.start + t.num")
+    rep.floor(rule, hits, 1, "range built from an item type in item_type_indices")
